@@ -1,6 +1,8 @@
 """C10 - IA solvers: no stale derived quantity after any history of the public setters; ownership."""
 from __future__ import annotations
 
+import ast
+
 from ..dsf import analyse_class, foreign_writers
 from ..families import IA
 from ..report import Ctx
@@ -34,6 +36,7 @@ def check(ctx: Ctx) -> None:
     for cname in IA.classes:
         analyse_class(ctx, 'C10.a', IA, cname)
     ctx.rule('C10.b', 'solver state is written from outside the class hierarchy only by the frozen wrappers', floor=1)
+    _check_power_applied(ctx)
     for fn, attr, line, recv in foreign_writers(ctx.model, PROTECTED, IA.classes + ['IterativeIASolverBaseClass']):
         q = fn.qualname
         ctx.instance('C10.b', '%s:%s' % (q, attr))
@@ -43,6 +46,27 @@ def check(ctx: Ctx) -> None:
             ctx.violation('C10.b', q, 'writes solver state %s.%s from outside the IA solver hierarchy (not one of the '
                           'frozen wrappers %s): derived quantities of that solver can no longer be kept fresh by '
                           'its own setters' % (recv, attr, sorted(FROZEN_FOREIGN)), fn.path, line, operand=attr)
+
+
+def _check_power_applied(ctx: Ctx) -> None:
+    from ..dsf import must_store_on_all_paths
+    M = ctx.model
+    ctx.rule('C10.c', 'solve(Ns, P) stores its power argument through the P setter on every normal path (all initialisers)', floor=5)
+    base = M.cls('IASolverBaseClass')
+    for c in M.subclasses(base):
+        fn = M.lookup_method(c, 'solve')
+        if fn is None or 'P' not in fn.params or any(isinstance(n, ast.Raise) for n in fn.node.body[-1:]):
+            continue
+        if c.name in ('IterativeIASolverBaseClass',):
+            continue
+        construct = '%s.solve' % c.name
+        ctx.instance('C10.c', construct)
+        ok, f = must_store_on_all_paths(M, c, 'solve', 'P')
+        ctx.obligation('C10.c', construct, ok, {'defined_in': f.qualname if f else None})
+        if not ok:
+            ctx.violation('C10.c', f.qualname, 'a normal path of solve() (receiver class %s) never assigns self.P: the power passed to '
+                          'solve is silently ignored there and the previously stored power is used' % c.name, f.path, f.lineno,
+                          operand='P:' + c.name)
 
 
 MUTANTS = [
@@ -67,3 +91,8 @@ MUTANTS = [
 ENGINES = ['model', 'dsf']
 TECHNIQUE = ('static analysis: derived-state freshness dataflow over all public entry points of the solver classes '
              '+ who-may-write (ownership) rule over the package')
+
+
+def sweep(overlay):
+    from ..dsf import dsf_sweep
+    return dsf_sweep(overlay, IA, 'C10')
